@@ -402,6 +402,7 @@ def build(
     learn_scan_positions=True,
     check=True,
     preprocess_batch_size=None,
+    warm_preprocess=False,
 ):
     """Build a preprocessed ``Ptychography`` instance for the simulated data.
 
@@ -478,6 +479,18 @@ def build(
         verbose=verbose,
         rng=rng,
     )
+    if warm_preprocess:
+        # The dataset object had an earlier life: it was preprocessed with another descan option (constant fit) and its
+        # loss targets were requested, before the user preprocesses it again with the options under test.
+        # (Ptychography.preprocess keeps an already preprocessed dataset as it is - by design - so both dataset-level
+        # calls are made here, with the arguments Ptychography.preprocess would pass.)
+        dkw = dict(force_com_rotation=0, force_com_transpose=False, padded_diffraction_intensities_shape=None,
+                   obj_padding_px=tuple(int(p) for p in obj_padding_px), plot_rotation=False, plot_com=False, vectorized=True)
+        pdset.preprocess(com_fit_function="constant", **dkw)
+        for lt in ("l2_amplitude", "l1_intensity", "l2_amplitude"):
+            pdset._set_targets(lt)
+        pdset.preprocess(com_fit_function="no_shift", **dkw)
+        probe_model.set_initial_probe(pdset.roi_shape, pdset.reciprocal_sampling, pdset.mean_diffraction_intensity, device="cpu")
     ptycho.preprocess(
         obj_padding_px=tuple(int(p) for p in obj_padding_px),
         val_ratio=val_ratio,
